@@ -51,6 +51,7 @@ type c12EmitJob struct {
 	Root    string `json:"root"`
 	Compact bool   `json:"compact"`
 	IR      []any  `json:"ir"`
+	Passes  string `json:"passes,omitempty"` // a compiler-passes file (the pipeline's `transformations.schemas`), applied first
 }
 
 type c12EmitResult struct {
@@ -80,6 +81,19 @@ func c12EmitOne(job c12EmitJob) (res c12EmitResult) {
 		if err != nil {
 			res.Err = "ir: " + err.Error()
 			return res
+		}
+		if job.Passes != "" {
+			// as Pipeline.LoadSchemas applies the common passes: cog's own loader of compiler-passes files, before the language's passes
+			common, err := verifapi.NewCompilerLoader().PassesFrom([]string{job.Passes})
+			if err != nil {
+				res.Err = "transformations: " + err.Error()
+				return res
+			}
+			schemas, err = common.Process(schemas)
+			if err != nil {
+				res.Err = "transformations: " + err.Error()
+				return res
+			}
 		}
 		schemas, err = lang.CompilerPasses().Process(schemas)
 		if err != nil {
